@@ -617,6 +617,21 @@ func runSeq(p *core.Program, r *core.Report, queue bool) {
 		lc = listCalls(lSearch)
 		okS := len(lc) == 1 && len(lc["Find"]) == 1 && lc["Find"][0].Common().Args[1] == ssa.Value(paramByName(lSearch, "item"))
 		c.ob("AG1", p.FuncName(lSearch), "Search looks the probe up", c.fpos(lSearch), okS && dFind != nil, "Search must be list.Find(item)")
+		// ... and answers what the lookup found
+		if okS {
+			find := lc["Find"][0].(ssa.Value)
+			isFound := func(v ssa.Value) bool {
+				ex, ok := v.(*ssa.Extract)
+				return ok && ex.Tuple == find && ex.Index == 1
+			}
+			for _, alt := range returnAlternatives(lSearch, 0) {
+				okA := isFound(alt.val)
+				if bc, isC := path.BoolConst(alt.val); isC {
+					okA = boolGuard(lSearch, alt.blk, isFound, bc)
+				}
+				c.ob("AG1", p.FuncName(lSearch), "Search answers what the lookup found", p.InstrPos(alt.ret), okA, "Search's answer is not the found-flag of list.Find(item) (nor a constant on the edge where the flag has that value)")
+			}
+		}
 		ret = accessorReturnDefer(lSize)
 		c.ob("CM1", p.FuncName(lSize), "Size reports n", c.fpos(lSize), ret != nil && isLoadOfField(ret, ln, "n"), "Size must return n")
 		for _, f := range all2 {
